@@ -794,11 +794,15 @@ pub fn build(quick: bool) -> Check {
         }
     }
     let n = sp.len();
-    let families: Vec<Box<dyn Family>> = sp.into_iter().map(|s| Box::new(FaultFamily::new(s)) as Box<dyn Family>).collect();
+    let mut families: Vec<Box<dyn Family>> = sp.into_iter().map(|s| Box::new(FaultFamily::new(s)) as Box<dyn Family>).collect();
+    // the end of the stream inside a TLS session: a stream that ends inside a TLS record, or
+    // between two records but inside a packet, is not a clean close either
+    families.push(Box::new(super::c18::TlsEof::new(quick, false, false)));
+    families.push(Box::new(super::c18::TlsEof::new(quick, false, true)));
     Check {
         id: "C19",
         level: "fault_enumeration",
-        rule: format!("{} conversations (writer programs with explicit finish and with implicit drops, text and binary, chained results, long data, close, quit, library replies, auth rejection, a shim error in each callback; each writer program followed by a library-answered command, by another shim command + QUIT, and by QUIT alone; pipelined and with a lock-step client; under 1-byte reads and short writes; requests of 2^24-1 bytes and more with end-of-stream within 6 bytes of every packet header and message end; replies holding a row of more than 2^24-1 bytes (explicit finish and writers finalised by drop, text and binary, whole and 65537-byte writes) with every operation failing once / for good / interrupted; the plain conversations again under one read boundary next to every packet header (thorough: at every position), each with its own fault-free operation log). For each, from the operation log of its fault-free run: end of stream after every byte count 0..M, an error of each of 4 kinds once and persistently at every operation index, a zero-length write at every write; ErrorKind::Interrupted once at every operation (must either be retried without any visible difference or be reported like any other error). Oracle: Ok iff fault-free and the client quit or closed at a message boundary after the handshake; every fault => Err, never Ok, never a panic; no callback starts after the failed operation; a shim error is returned as the identical value. Non-trivial = a fault strictly inside the conversation (not a clean close).", n),
+        rule: format!("the client's stream ending at every kind of position of a TLS session (all messages in one burst of records, and one record per message): Ok only exactly between two records at a command boundary; {} conversations (writer programs with explicit finish and with implicit drops, text and binary, chained results, long data, close, quit, library replies, auth rejection, a shim error in each callback; each writer program followed by a library-answered command, by another shim command + QUIT, and by QUIT alone; pipelined and with a lock-step client; under 1-byte reads and short writes; requests of 2^24-1 bytes and more with end-of-stream within 6 bytes of every packet header and message end; replies holding a row of more than 2^24-1 bytes (explicit finish and writers finalised by drop, text and binary, whole and 65537-byte writes) with every operation failing once / for good / interrupted; the plain conversations again under one read boundary next to every packet header (thorough: at every position), each with its own fault-free operation log). For each, from the operation log of its fault-free run: end of stream after every byte count 0..M, an error of each of 4 kinds once and persistently at every operation index, a zero-length write at every write; ErrorKind::Interrupted once at every operation (must either be retried without any visible difference or be reported like any other error). Oracle: Ok iff fault-free and the client quit or closed at a message boundary after the handshake; every fault => Err, never Ok, never a panic; no callback starts after the failed operation; a shim error is returned as the identical value. Non-trivial = a fault strictly inside the conversation (not a clean close).", n),
         assumptions: vec![
             "ErrorKind::Interrupted is injected once per operation only (a persistent one makes std's write_all spin by contract); both a transparent retry and an error return are accepted".into(),
             "fault points are derived from the fault-free run of the tree under test, not from constants".into(),
@@ -807,6 +811,6 @@ pub fn build(quick: bool) -> Check {
         exhaustive: true,
         caps_hit: vec![],
         families,
-        required: vec!["interrupted_once", "eof_inside_a_message", "eof_at_a_boundary", "read_faults", "write_faults", "flush_faults", "zero_writes"],
+        required: vec!["tls_eof_inside_a_record", "interrupted_once", "eof_inside_a_message", "eof_at_a_boundary", "read_faults", "write_faults", "flush_faults", "zero_writes"],
     }
 }
